@@ -1,5 +1,6 @@
 import IstioModel.Common.Wire
 import IstioModel.C10.Model
+import IstioModel.C10.Spec
 
 /-!
 C10 - executable model of the ambient (ztunnel) side.
@@ -288,11 +289,6 @@ abbrev denied := deniedG Fixes.all
 
 /-! ## The callers of `buildWorkloadPolicies`: which labels stand for the workload -/
 
-/-- The kind of object an ambient workload comes from. -/
-inductive WKind
-  | pod | workloadEntry | serviceEntryEndpoint
-  deriving DecidableEq, Repr
-
 /-- `maps.MergeCopy(spec.labels, metadata.labels)`: metadata labels win. -/
 def mergeLabels (spec mlabels : Labels) : Labels :=
   mlabels ++ spec.filter (fun kv => (mlabels.lookup kv.1).isNone)
@@ -309,14 +305,6 @@ def workloadLabelsFor (fx : Fixes) (k : WKind) (labels mlabels : Labels) : Label
 /-- The keys the ambient index attaches to a workload of the given kind. -/
 def workloadKeysG (fx : Fixes) (root : String) (pas : List PA) (k : WKind) (ns : String) (labels mlabels : Labels) : AKeys :=
   ambientKeysG fx root (ambientFetchG fx root pas { ns := ns, labels := workloadLabelsFor fx k labels mlabels })
-
-/-- Specification side: the labels the workload HAS (what the sidecar registry and EDS use for it): pod labels,
-    the merged labels of a WorkloadEntry (`ConvertWorkloadEntry`, metadata wins), the inline endpoint's labels. -/
-def ownLabels (k : WKind) (labels mlabels : Labels) : Labels :=
-  match k with
-  | .pod => labels
-  | .workloadEntry => mergeLabels labels mlabels
-  | .serviceEntryEndpoint => labels
 
 /-- ztunnel's decision for a workload of the ambient index (keys as the index attaches them). -/
 def workloadDeniedG (fx : Fixes) (root : String) (pas : List PA) (k : WKind) (ns : String) (labels mlabels : Labels)
